@@ -39,7 +39,7 @@ func NewSeedSequencer(idx Index, src ...Seed) *SeedSequencer {
 // Plan returns a new possible plan, representing an ordered list of
 // segments that can be used to re-assemble the requested file
 func (r *SeedSequencer) Plan() (plan Plan) {
-	for {
+	for r.current < len(r.index.Chunks) {
 		seed, segment, source, done := r.Next()
 		plan = append(plan, SeedSegmentCandidate{seed, source, segment})
 		if done {
